@@ -2,6 +2,7 @@
 from __future__ import annotations
 
 import itertools
+import copy
 import json
 import math
 from fractions import Fraction
@@ -235,10 +236,10 @@ def run(chk: Check):
 
     answers = lean_run(reqs)
     for (kind, bounds, prec, arr), ans in zip(meta, answers):
-        b_in = [np.array(b) for b in bounds] if arr and len({len(b) for b in bounds}) <= 1 else bounds
+        b_in = [np.array(b) for b in bounds] if arr and len({len(b) for b in bounds}) <= 1 else copy.deepcopy(bounds)
         if arr and b_in is not bounds and len(bounds) == 2:
             b_in = np.array(bounds)
-        p_in = np.array(prec) if arr else prec
+        p_in = np.array(prec) if arr else copy.deepcopy(prec)
         if kind == "val":
             impl = impl_check(b_in, p_in)
             exp = oracle_validation(bounds, prec)
@@ -266,7 +267,15 @@ def run(chk: Check):
                 chk.count("built:verbose")
             else:
                 s = ss.SearchSpace(b_in, p_in, verbose=False)
+            # the space is what was declared at construction: half of the time the caller reuses (overwrites in place) the objects it passed before anything is read
+            reused = len(str(bounds)) % 2 == 0
+            if reused:
+                scramble(b_in); scramble(p_in)
+                chk.count("arguments_overwritten_by_the_caller_after_construction:" + ("arrays" if arr else "lists"))
             grids = s.param_grid
+            if reused and [list(map(float, b)) for b in np.asarray(s.parameters_bounds).tolist()] != [list(map(float, b)) for b in bounds]:
+                chk.fail("SearchSpace.parameters_bounds changed when the caller overwrote the list/array it had passed to the constructor",
+                         {"case": {"kind": "build", "bounds": bounds, "precision": prec, "args_reused": True, "arrays": bool(arr)}})
             impl_f = f"ok {len(grids)} " + " ".join(fl(g) for g in grids) + f" {s.space_size}"
         except ss.SearchSpaceError as e:
             grids, impl_f = None, impl_err(e)
@@ -298,10 +307,27 @@ def run(chk: Check):
                     continue
                 errs, known = oracle_grid(bounds[0][j], bounds[1][j], prec[j], g)
                 for e in errs:
-                    chk.fail(f"grid of parameter {j}: " + e, {"case": {"kind": "build", "bounds": bounds, "precision": prec, "parameter": j}})
+                    chk.fail(f"grid of parameter {j}: " + e + (" (the caller overwrote the objects it had passed, after construction and before the grid was first read)" if reused else ""),
+                             {"case": {"kind": "build", "bounds": bounds, "precision": prec, "parameter": j, "args_reused": reused, "arrays": bool(arr)}})
                 for k in known:
                     chk.fail(f"grid of parameter {j}: " + k, {"case": {"kind": "build", "bounds": bounds, "precision": prec, "parameter": j}},
                              signature=SIG_SMALL_PREC)
+
+
+def scramble(obj):
+    """the caller goes on using the very objects it passed in (e.g. to set up the next space): every number in them is overwritten in place"""
+    if isinstance(obj, np.ndarray):
+        if obj.dtype.kind in "fiu" and obj.flags.writeable:
+            obj[...] = obj * 7 + 3
+        elif obj.dtype == object:
+            for x in obj:
+                scramble(x)
+    elif isinstance(obj, list):
+        for k in range(len(obj)):
+            if isinstance(obj[k], (list, np.ndarray)):
+                scramble(obj[k])
+            elif isinstance(obj[k], (int, float)) and not isinstance(obj[k], bool):
+                obj[k] = obj[k] * 7 + 3
 
 
 def replay(path: Path) -> int:
@@ -317,7 +343,11 @@ def replay(path: Path) -> int:
             fails = impl_check(c["bounds"], c["precision"]) != oracle_validation(c["bounds"], c["precision"])
         else:
             try:
-                s = ss.SearchSpace(c["bounds"], c["precision"], verbose=False)
+                b_in = np.array(c["bounds"]) if c.get("arrays") else copy.deepcopy(c["bounds"])
+                p_in = np.array(c["precision"]) if c.get("arrays") else copy.deepcopy(c["precision"])
+                s = ss.SearchSpace(b_in, p_in, verbose=False)
+                if c.get("args_reused"):
+                    scramble(b_in); scramble(p_in)
                 fails = any(oracle_grid(c["bounds"][0][j], c["bounds"][1][j], c["precision"][j], g)[0] for j, g in enumerate(s.param_grid))
             except ss.SearchSpaceError:
                 fails = oracle_validation(c["bounds"], c["precision"]) == "ok"
